@@ -19,8 +19,7 @@ from .core import C, Ctx, EndPath, Unsupported, SArr, SInt, SReal, SBool, lift, 
 def get_source_function(path, qualname):
     """Return (FunctionDef node, module source) for a possibly nested/method qualified name like
     'Cycles._parse_condition' or 'wrap_verbose.inner_verbose'."""
-    src = open(path).read()
-    tree = ast.parse(src)
+    src, tree = _parsed(path)
     node = tree
     for part in qualname.split('.'):
         found = None
@@ -33,7 +32,22 @@ def get_source_function(path, qualname):
         node = found
     if not isinstance(node, ast.FunctionDef):
         raise Unsupported('%s is not a function' % qualname)
-    return node, src
+    import copy
+    return copy.deepcopy(node), src      # callers rewrite the node: never hand out the cached tree
+
+
+_PARSE_CACHE = {}
+
+
+def _parsed(path):
+    """(source text, ast) of a file, cached per (path, mtime, size) within one run"""
+    import os
+    st = os.stat(path)
+    key = (path, st.st_mtime_ns, st.st_size)
+    if key not in _PARSE_CACHE:
+        src = open(path).read()
+        _PARSE_CACHE[key] = (src, ast.parse(src))
+    return _PARSE_CACHE[key]
 
 
 MUTATORS = {'append', 'extend', 'sort', 'pop', 'update', 'insert', 'remove', 'clear', 'setdefault'}
